@@ -119,8 +119,8 @@ theorem tokFacts_of_n (d0 : Char) (dr : List Char) (e0 : Char) (er : List Char)
     (hd0 : wsChar d0 = false) (hel : ∀ w c, (e0 :: er) = w ++ [c] → wsChar c = false)
     (hd0' : wsChar d0' = false) (hel' : ∀ w c, (e0' :: er') = w ++ [c] → wsChar c = false) :
     ∀ (L L' : List Token), TokNs (d0 :: dr) (e0 :: er) (d0' :: dr') (e0' :: er') ρ N (fun _ _ => True) L L' →
-    (∀ t ∈ L, t.value ≠ [] ∧ TokShape d0 e0 (d0 :: dr) (e0 :: er) (t.kind, t.value)) →
-    (∀ t ∈ L', t.value ≠ [] ∧ TokShape d0' e0' (d0' :: dr') (e0' :: er') (t.kind, t.value)) →
+    (∀ t ∈ L, t.value ≠ [] ∧ TokShapeW (d0 :: dr) (e0 :: er) (t.kind, t.value)) →
+    (∀ t ∈ L', t.value ≠ [] ∧ TokShapeW (d0' :: dr') (e0' :: er') (t.kind, t.value)) →
     TokFacts L L'
   | [], [], _, _, _ => by
     refine ⟨trivial, ⟨rfl, ?_⟩, ?_, ?_, ?_, ?_⟩
@@ -278,15 +278,20 @@ theorem pexact_ren (ds de ds' de' : List Char) (ρ : List Char → List Char) (N
               exact ⟨⟨tg, hok, hn', e1.symm, e2.symm⟩,
                 pexact_ren ds de ds' de' ρ N L L' hf hx F F' hF n (m + 1) qs1 qs1' (by omega) (by omega) r1 r2⟩
 
-/-- C18 for a change of tag names (and delimiters), documents without `unwrap-block` whose tags are grammar tags: the
-    two spellings of one document are cleaned to the two spellings of one result -/
-theorem rename_exact (d0 : Char) (dr : List Char) (e0 : Char) (er : List Char)
+/-- C18 for a change of tag names (and delimiters) in its general form: documents without `unwrap-block` whose tags are
+    grammar tags and whose tokens are the normalised pieces under either spelling (`htn`, `htn'` - the conclusion of
+    C08): the two spellings of one document are cleaned to the two spellings of one result -/
+theorem rename_exact_tn (d0 : Char) (dr : List Char) (e0 : Char) (er : List Char)
     (d0' : Char) (dr' : List Char) (e0' : Char) (er' : List Char)
     (ρ : List Char → List Char) (N : List Char → Prop) (hρ : RenOK ρ N)
     (hd0 : wsChar d0 = false) (hel : ∀ w c, (e0 :: er) = w ++ [c] → wsChar c = false)
     (hd0' : wsChar d0' = false) (hel' : ∀ w c, (e0' :: er') = w ++ [c] → wsChar c = false)
     (ps ps' : List Piece) (hren : PiecesRen ρ N ps ps')
-    (hfree : ∀ p ∈ ps, p.fits d0 e0 (d0 :: dr) (e0 :: er)) (hfree' : ∀ p ∈ ps', p.fits d0' e0' (d0' :: dr') (e0' :: er'))
+    (hstrip : ∀ p ∈ ps, p.strip (d0 :: dr) (e0 :: er)) (hstrip' : ∀ p ∈ ps', p.strip (d0' :: dr') (e0' :: er'))
+    (htn : (tokenize (renderAll (d0 :: dr) (e0 :: er) ps) (d0 :: dr) (e0 :: er)).map (fun t => (t.kind, t.value))
+      = tnorm (d0 :: dr) (e0 :: er) [] ps [])
+    (htn' : (tokenize (renderAll (d0' :: dr') (e0' :: er') ps') (d0' :: dr') (e0' :: er')).map (fun t => (t.kind, t.value))
+      = tnorm (d0' :: dr') (e0' :: er') [] ps' [])
     (cfg : Cfg) (htl : N cfg.tlName) (hrm : N cfg.rmName) (out out' : List Char)
     (hnu : NoUnwrapAttr (parseSource (renderAll (d0 :: dr) (e0 :: er) ps) (d0 :: dr) (e0 :: er)))
     (h : clean (renderAll (d0 :: dr) (e0 :: er) ps) (d0 :: dr) (e0 :: er) cfg = .ok out)
@@ -294,11 +299,7 @@ theorem rename_exact (d0 : Char) (dr : List Char) (e0 : Char) (er : List Char)
       { cfg with tlName := ρ cfg.tlName, rmName := ρ cfg.rmName } = .ok out') :
     ∃ qs qs', out = renderAll (d0 :: dr) (e0 :: er) qs ∧ out' = renderAll (d0' :: dr') (e0' :: er') qs' ∧
       PiecesRen ρ N qs qs' := by
-  have hok : ∀ p ∈ ps, p.ok d0 e0 := fun p hp => Piece.ok_of_fits _ _ _ _ p (hfree p hp)
-  have hok' : ∀ p ∈ ps', p.ok d0' e0' := fun p hp => Piece.ok_of_fits _ _ _ _ p (hfree' p hp)
-  have hT := tokNs_of_tnorm (d0 :: dr) (e0 :: er) (d0' :: dr') (e0' :: er') ρ N ps ps' [] _ _ hren
-    (fun p hp => Piece.strip_of_fits _ _ _ _ p (hfree p hp)) (fun p hp => Piece.strip_of_fits _ _ _ _ p (hfree' p hp))
-    (tokens_tnorm d0 dr e0 er ps hok) (tokens_tnorm d0' dr' e0' er' ps' hok')
+  have hT := tokNs_of_tnorm (d0 :: dr) (e0 :: er) (d0' :: dr') (e0' :: er') ρ N ps ps' [] _ _ hren hstrip hstrip' htn htn'
   have hG := parse_n (d0 :: dr) (e0 :: er) (d0' :: dr') (e0' :: er') ρ N (fun _ _ => True) hρ (by simp) (by simp) (by simp) (by simp) _ _ hT
   have hP : ∀ el, N el.name →
       conditionHolds { cfg with tlName := ρ cfg.tlName, rmName := ρ cfg.rmName } (renEl ρ el) = conditionHolds cfg el :=
@@ -313,8 +314,8 @@ theorem rename_exact (d0 : Char) (dr : List Char) (e0 : Char) (er : List Char)
     have := hnu e1 he1
     rw [← hee]
     exact this
-  obtain ⟨qs, s1, ranges, o1, k1, hu1, x1, f1⟩ := clean_exact d0 dr e0 er hd0 hel ps hok cfg out hnu h
-  obtain ⟨qs', s1', ranges', o2, k2, hu2, x2, f2⟩ := clean_exact d0' dr' e0' er' hd0' hel' ps' hok' _ out' hnu' h'
+  obtain ⟨qs, s1, ranges, o1, k1, hu1, x1, f1⟩ := clean_exact d0 dr e0 er hd0 hel ps htn cfg out hnu h
+  obtain ⟨qs', s1', ranges', o2, k2, hu2, x2, f2⟩ := clean_exact d0' dr' e0' er' hd0' hel' ps' htn' _ out' hnu' h'
   unfold parseSource at hu1 hu2 k1 k2 x1 x2 f1 f2
   have hx := flatten_n _ _ _ _ ρ N _ _ _ (prune_n _ _ _ _ ρ N _ (conditionHolds cfg)
     (conditionHolds { cfg with tlName := ρ cfg.tlName, rmName := ρ cfg.rmName }) hP _ _ hG)
@@ -338,6 +339,28 @@ theorem rename_exact (d0 : Char) (dr : List Char) (e0 : Char) (er : List Char)
   have hres := pexact_ren (d0 :: dr) (e0 :: er) (d0' :: dr') (e0' :: er') ρ N L L' hf hx _ _ hF L.length 0 qs qs' rfl
     (Nat.zero_le _) (by simpa [bnd_zero] using x1) (by simpa [bnd_zero] using x2)
   exact ⟨qs, qs', o1, o2, hres⟩
+
+/-- C18 for a change of tag names (and delimiters), documents without `unwrap-block` whose tags are grammar tags: the
+    two spellings of one document are cleaned to the two spellings of one result -/
+theorem rename_exact (d0 : Char) (dr : List Char) (e0 : Char) (er : List Char)
+    (d0' : Char) (dr' : List Char) (e0' : Char) (er' : List Char)
+    (ρ : List Char → List Char) (N : List Char → Prop) (hρ : RenOK ρ N)
+    (hd0 : wsChar d0 = false) (hel : ∀ w c, (e0 :: er) = w ++ [c] → wsChar c = false)
+    (hd0' : wsChar d0' = false) (hel' : ∀ w c, (e0' :: er') = w ++ [c] → wsChar c = false)
+    (ps ps' : List Piece) (hren : PiecesRen ρ N ps ps')
+    (hfree : ∀ p ∈ ps, p.fits d0 e0 (d0 :: dr) (e0 :: er)) (hfree' : ∀ p ∈ ps', p.fits d0' e0' (d0' :: dr') (e0' :: er'))
+    (cfg : Cfg) (htl : N cfg.tlName) (hrm : N cfg.rmName) (out out' : List Char)
+    (hnu : NoUnwrapAttr (parseSource (renderAll (d0 :: dr) (e0 :: er) ps) (d0 :: dr) (e0 :: er)))
+    (h : clean (renderAll (d0 :: dr) (e0 :: er) ps) (d0 :: dr) (e0 :: er) cfg = .ok out)
+    (h' : clean (renderAll (d0' :: dr') (e0' :: er') ps') (d0' :: dr') (e0' :: er')
+      { cfg with tlName := ρ cfg.tlName, rmName := ρ cfg.rmName } = .ok out') :
+    ∃ qs qs', out = renderAll (d0 :: dr) (e0 :: er) qs ∧ out' = renderAll (d0' :: dr') (e0' :: er') qs' ∧
+      PiecesRen ρ N qs qs' :=
+  rename_exact_tn d0 dr e0 er d0' dr' e0' er' ρ N hρ hd0 hel hd0' hel' ps ps' hren
+    (fun p hp => Piece.strip_of_fits _ _ _ _ p (hfree p hp)) (fun p hp => Piece.strip_of_fits _ _ _ _ p (hfree' p hp))
+    (tokens_tnorm d0 dr e0 er ps (fun p hp => Piece.ok_of_fits _ _ _ _ p (hfree p hp)))
+    (tokens_tnorm d0' dr' e0' er' ps' (fun p hp => Piece.ok_of_fits _ _ _ _ p (hfree' p hp)))
+    cfg htl hrm out out' hnu h h'
 
 /-! Non-vacuity: `tl` / `rm` rewritten to `time-limited` / `removal-marker` (and the closing forms with them), under
     `<` `>` resp. `[[` `]]`. -/
